@@ -221,6 +221,26 @@ def _sensitivity(ctx, pid):
     if bad:
         raise AnalysisBroken("the check no longer reports %d of its mutants: %s" % (len(bad), "; ".join(bad)))
     r.floor(1, "mutants")
+    # ... and stay silent on behaviour-preserving edits (selftest/benign/<pid>/*.patch): a VIOLATION there is a false alarm of
+    # the checker, reported as analysis-broken
+    bdir = os.path.join(VERIF, "selftest", "benign", pid)
+    if os.path.isdir(bdir):
+        r2 = ctx.rule("checker-silence", "every behaviour-preserving edit of selftest/benign/%s applied to a scratch copy of the current tree leaves "
+                      "this check without a violation (an honest analysis-broken is accepted)" % pid)
+        p = subprocess.run([os.path.join(VERIF, "selftest", "run"), pid, "--benign", "-j", str(min(8, os.cpu_count() or 4)), "--no-json"],
+                           stdout=subprocess.PIPE, stderr=subprocess.STDOUT, text=True)
+        fa = []
+        for line in p.stdout.splitlines():
+            m = re.match(r"^(C\d+)\s+(\S+\.patch)\s+(\S+)", line)
+            if not m:
+                continue
+            r2.seen()
+            if m.group(3) in ("silent", "analysis-broken-accepted", "not-applicable"):
+                r2.ok("edit/%s" % m.group(2), None, m.group(3))
+            else:
+                fa.append("%s: %s" % (m.group(2), m.group(3)))
+        if fa:
+            raise AnalysisBroken("the check raises a false alarm on %d behaviour-preserving edits: %s" % (len(fa), "; ".join(fa)))
 
 
 def write_evidence(ctx, path, seed, t0, broken=None):
